@@ -42,8 +42,9 @@ def species_strategy(draw, idx):
     ns = draw(st.sampled_from([1, 2, 3, 3, 4, 5, 6]))
     ns = max(ns, nres)
     ne = max(draw(st.integers(1, 12)), nres)
-    if ne == ns:
+    if ne == ns and ns > 1:
         ne += 1                      # different size: the end molecule is not mistaken for the start one
+    # (one bead mapped to one atom - an ion - is a legitimate species: both molecules have one atom)
     rnames = ["S%d%s" % (idx, c) for c in "AB"][:nres]
 
     def topo(n, tag):
